@@ -67,7 +67,7 @@ def run(sim, params):
         # at the moment run() returned: every step already terminated
         dag.check_all_terminated(wf, "at_return")
     sim.drain()
-    dag.check_all_terminated(wf, "after_drain")
+    dag.check_all_terminated(wf, "after_drain", failed=plan.fail is not None)
     if plan.fail is not None:
         for st in wf.steps.values():
             if st.status in (Status.WAITING, Status.FIREABLE, Status.RUNNING):
